@@ -38,7 +38,14 @@ func (cok *CollationOrderKey[K]) Transform(k K) ([]byte, []byte) {
 	// every call (lookups included) is retained for the life of the tree
 	cok.buf.Reset()
 	colKey := cok.c.Key(cok.buf, b)
-	return b, append(make([]byte, 0, len(colKey)), colKey...)
+
+	// with options that drop a comparison level the sort key of one string
+	// can be a proper prefix of another's ("a" and "á" under IgnoreCase);
+	// no weight is encoded as 00 00, so this terminator makes the keys
+	// prefix-free without changing their order
+	out := make([]byte, 0, len(colKey)+2)
+	out = append(out, colKey...)
+	return b, append(out, 0, 0)
 }
 func (cok *CollationOrderKey[K]) Restore(b []byte) K { return cok.src }
 
